@@ -314,3 +314,26 @@ Proof. vm_compute. reflexivity. Qed.
 Example ex_model_log_blk :
   map (fun e => (Z.of_nat (ea e), ek e)) (mlog ex_scripts [0;0;0;1;1;1]) = [(0, 0); (0, 1); (1, 0); (1, 4)]%Z.
 Proof. vm_compute. reflexivity. Qed.
+
+(* The other conjuncts of prop_ok ([ret_ok], [fresh_once], [created_once], [own_once]) are not proved to
+   accept every model log (only [scan] is: [model_log_passes_scan]); here they are evaluated on the model's
+   own logs of a few runs with joins, errors, panics, retries, all three primitives, two keys.  They
+   identify an execution by its value, so they assume what the generator guarantees: the values of
+   the calls on one key are pairwise distinct (last example: the same value twice is rejected). *)
+Definition rr (n k : nat) : list nat := flat_map (fun _ => seq 0 n) (seq 0 k).
+
+Example ex_model_logs_pass_prop_ok :
+  forallb (fun p => prop_ok_conc (mcase (fst p) (snd p)))
+    [ (ex_scripts, ex_sched);
+      (ex_scripts, rr 3 12);
+      ([[mkOp GSF 1 101 epanic]; [mkOp GSF 1 201 0]; [mkOp GSF 2 301 5]], rr 3 12);
+      ([[mkOp GLC 1 101 0; mkOp GLC 1 102 7]; [mkOp GLC 1 201 epanic]; [mkOp GLC 1 301 0]], rr 3 30);
+      ([[mkOp GRM 1 101 5]; [mkOp GRM 1 201 0]; [mkOp GRM 1 301 0]; [mkOp GRM 2 401 epanic]], rr 4 20);
+      ([[mkOp GRM 1 101 epanic]; [mkOp GRM 1 201 0]; [mkOp GRM 1 301 0]], [0;0;0;0;1;1;0;0;0;1;2;2;2;2;2;2;2;2;2]);
+      ([[mkOp GSF 1 101 0; mkOp GLC 1 102 0; mkOp GRM 1 103 0]; [mkOp GRM 1 201 0; mkOp GSF 1 202 3; mkOp GLC 1 203 0]], rr 2 40)
+    ] = true.
+Proof. vm_compute. reflexivity. Qed.
+
+Example ex_checker_assumes_distinct_values :
+  prop_ok_conc (mcase [[mkOp GSF 1 101 0; mkOp GSF 1 101 0]] (rr 1 12)) = false.
+Proof. vm_compute. reflexivity. Qed.
